@@ -3,6 +3,8 @@ import NutilsVerif.Generated.C11Refs
 import NutilsVerif.Proofs.C11Rewrite
 import NutilsVerif.Proofs.C11Alg
 import NutilsVerif.Proofs.C11Simplex
+import NutilsVerif.Proofs.C11Square
+import NutilsVerif.Proofs.C11Struct
 /-!
 # C11 — property theorems
 
@@ -132,6 +134,39 @@ theorem indexWithTail_get_simplex (key : Item → Nat) (s : TSeq) (hs : s.WF Sim
     ∃ ch t', s.get i = some ch ∧ s.iwt key (ch ++ t) = .ok (i, t') ∧ GFits SimplexItem t' s.fd fdt ∧ Eqv t' t ∧
       SameMap t t' s.fd fdt :=
   indexWithTail_get SimplexItem simplexItem_revSys key s hs i hi t fdt ht
+
+/-- Scale-type items (children of any tensor product of simplices, of any nesting depth and dimension) are trivially a reversible
+class: no swap ever fires between them. -/
+theorem square_reversible : RevSys SquareItem := squareItem_revSys
+
+/-- The lookup theorem for tails of child transforms ("the transform plus any number of child transformations", as the docstring
+of `index_with_tail` puts it) over items of ANY tensor nesting: squares, cubes, prisms, n-cubes, their refinements, hierarchical
+unions, masks and reorderings. -/
+theorem indexWithTail_get_children (key : Item → Nat) (s : TSeq) (hs : s.WF SquareItem key) (i : Nat) (hi : i < s.len)
+    (t : Chain) (fdt : Nat) (ht : GFits SquareItem t s.fd fdt) :
+    ∃ ch t', s.get i = some ch ∧ s.iwt key (ch ++ t) = .ok (i, t') ∧ GFits SquareItem t' s.fd fdt ∧ Eqv t' t ∧
+      SameMap t t' s.fd fdt :=
+  indexWithTail_get SquareItem squareItem_revSys key s hs i hi t fdt ht
+
+/-! ### the index arithmetic of `StructuredTransforms` -/
+
+/-- `Axis.unmap(Axis.map(r)) = r` for every well-formed axis, periodic (`mod > 0`, length ≤ period) or not, also with negative `i`. -/
+theorem axis_unmap_map (a : Axis) (h : a.ok) (r : Nat) (hr : r < a.len) : a.unmap (a.map r) = some r :=
+  Axis.unmap_map a h r hr
+
+/-- **Structured flat index ↔ per-axis indices**: the decomposition loop of `__getitem__` (`structDec`, literally the fold of the
+model, see `structGet_eq_structDec`) followed by the flattening loop of `index_with_tail` (`structFlat`) is the identity on
+`[0, len)`, for any number of axes. -/
+theorem structured_index_roundtrip (axes : List Axis) (hax : ∀ ax ∈ axes, ax.ok) (index : Nat) (h : index < structLen axes) :
+    (structDec axes index).2 = 0 ∧ structFlat 0 (List.zip (structDec axes index).1 axes) = some index :=
+  struct_index_roundtrip axes hax index h
+
+/-- One refinement level: `divmod(indices, 2)` of `__getitem__` picks the child at position `digitsPos r` of
+`_ctransforms.reshape((2,)*n)`; `indices*2 + _cindices[child]` of `index_with_tail` restores the indices (also negative ones). -/
+theorem structured_refine_roundtrip (ind : List Int) :
+    digitsPos (ind.map fun i => Int.fmod i 2) < 2 ^ ind.length ∧
+    List.zipWith (fun i d => i * 2 + d) (ind.map fun i => Int.fdiv i 2) (digits ind.length (digitsPos (ind.map fun i => Int.fmod i 2))) = ind :=
+  refine_level_roundtrip ind
 
 -- non-vacuity: the refined boundary of two triangles (children of the kept edges of `UniformDerived(Index)`), chained with the
 -- edges of a third triangle refined the same way
